@@ -136,6 +136,24 @@ def gen(ctx):
         yield 'pct_dec', s.encode('utf-8'), tag
 
 
+def tables_in_sync(ctx):
+    """The generated table file must be exactly what the generator produces from the Rust source now (a generator that can
+    no longer find its constant, or a stale file, would silently decouple the proofs from the code)."""
+    import importlib
+    import hv
+    try:
+        outs = importlib.import_module('tables.pct').generate(hv.REPO)
+        for name, content in outs.items():
+            path = hv.COQ + '/theories/' + name
+            if not os.path.exists(path) or open(path).read() != content:
+                raise RuntimeError(name + ' on disk differs from what the generator produces')
+    except Exception as e:  # noqa: BLE001
+        ctx.report({'part': 'pct', 'tables': 'tools/tables/pct.py'}, repr(e), 'tables regenerate from the Rust source',
+                   cls='tables-out-of-sync', failing_input=False,
+                   what='table generator for pct failed or its output is stale: the theorems no longer speak about the '
+                        'constants in the source')
+
+
 def run(ctx):
     import time
     t0 = time.time()
@@ -144,6 +162,7 @@ def run(ctx):
 
 
 def _run(ctx):
+    tables_in_sync(ctx)
     if ctx.replay:
         c = ctx.replay.get('case', {})
         if c.get('part') != 'pct':
